@@ -42,6 +42,15 @@ CHECKS["C15"] = dict(cat="exploration", engine="txn",
    text="Transactions with 1-4 named inserts; names in scalar/optional/set/map-key/map-value/map-key+value uuid positions of row values, conditions (incl. _uuid) and mutation arguments, before and after the defining insert, with explicit or server-assigned uuids; strings equal to names in string columns; conflicting claims of a name. The expansion is compared position by position and the stored rows are compared with the reference resolution (using the uuids the inserts reported); no named uuid may survive. Held = on the transactions generated.",
    note="Reference columns are plain uuid or weak so that integrity rules do not mask the transactions of interest; a uuid identifies a row of one table.", ref="4/C15")
 
+CHECKS["C09"] = dict(cat="exploration", engine="codec",
+   technique="round-trip identity monitor + independent RFC 7047 encoder + wrong-type probes",
+   text="Generated schemas over the whole type space (incl. real/boolean map keys, bounded sets, enums, references, scalar uuids) and generated rows (empty/singleton/multi collections, nil/non-nil optionals, zero values, integers at 0, +-1, +-2^31, +-2^53(+1), +-2^62, min/max int64): model -> NewRow -> JSON -> Row.UnmarshalJSON -> GetRowData/CreateModel must give back every field (sets as sets); each column's wire form is compared with an independent RFC encoder; absent columns must leave pre-filled fields untouched; values of the wrong Go type (22 candidates per column) and ill-typed wire values must be rejected by NativeToOvs / SetField / OvsToNative. One known finding (integers beyond 2^53).",
+   note="Non-finite reals excluded; '' and the all-zero uuid are one value.", ref="4/C09")
+CHECKS["C19"] = dict(cat="exploration", engine="codec",
+   technique="crash oracle (recover / process death / echo after request) over structurally corrupted inputs; server in its own process; thorough adds native coverage-guided fuzzing",
+   text="(a) every exported wire type decodes structurally corrupted valid encodings (drop/duplicate/retype members, [], [tag], [tag,non-array], unhashable keys, wrong arity, out-of-domain numbers) under recover; (b) corrupted operation lists (missing members, swapped types, unknown tables/columns, zero divisors, member-less commit/comment/assert, empty list) are executed by the in-memory database under recover and followed by a plain select; (c) the same requests go as raw JSON-RPC to a library server running in its own process, each followed by an echo: process death, a dropped connection or a request never answered is the violation, the server is restarted and the run continues; thorough: go test -fuzz on all decoders for a fixed execution count. Known finding: wait without timeout blocks the server.",
+   note="Inputs are valid JSON. A request not answered within 20 s (normal < 1 ms) counts as never answered.", ref="4/C19")
+
 NOT_YET = "check not built yet (work in progress in this round); no claim is made"
 
 def main():
